@@ -312,6 +312,7 @@ class C11(Campaign):
                    "raise@initial-activation (sync constructor / deferred async activation), then restart + re-activation",
                    "re-activation (any number)", "concurrent activation (two tasks)",
                    "second instance of the same class over an empty model with another start_value",
+                   "second instance whose own listener brings the only coroutine callbacks (other engine than the first)",
                    "first events from two tasks at once", "nested send from the initial enter callback",
                    "start_value on restart"]
     rule = ("one run = a generated machine driven through a history in which, at seeded points, the machine "
@@ -383,6 +384,24 @@ class C11(Campaign):
             nb.pop("start_value", None)
             if rnd.random() < 0.6:
                 nb["start_value"] = value_of(prog, rnd.choice(prog["states"])["id"])
+            roles_r = [r_ for r_ in prog["listeners"] if any(c.startswith(r_ + ".") for c in prog["cbs"])]
+            roles_r = [r_ for r_ in roles_r if all(
+                names_ok(prog, ["machine", "model"] + [x for x in o_.get("listeners", []) if x != r_])
+                for o_ in out if o_["op"] == "new")]
+            if not is_async and roles_r and rnd.random() < 0.5:
+                # the two instances differ in what their OWN listeners bring: B's extra listener has coroutine
+                # callbacks (B runs on the async engine, activation deferred), A and its restarts have none
+                r_async = rnd.choice(roles_r)
+                for c, m_ in prog["cbs"].items():
+                    if c.startswith(r_async + "."):
+                        m_["async"] = True
+                        m_.pop("prop", None)
+                for o_ in out:
+                    if o_["op"] == "new":
+                        o_["listeners"] = [x for x in o_.get("listeners", []) if x != r_async]
+                nb["listeners"] = [x for x in nb.get("listeners", []) if x != r_async] + [r_async]
+                nb["rtc"] = True
+                sc["engines_differ"] = True
             at = rnd.randrange(1, len(out) + 1)
             extra = [nb]
             if is_async and sc["driver"] == "inloop" and rnd.random() < 0.5:
